@@ -145,7 +145,7 @@ pub struct Nx {
     pub anon: Session,
 }
 
-async fn connect(store: Arc<InMemory>) -> CognitiveNexus {
+async fn connect(store: Arc<dyn object_store::ObjectStore>) -> CognitiveNexus {
     let db = AndaDB::connect(
         store,
         DBConfig {
@@ -233,6 +233,14 @@ impl Nx {
     pub async fn open_async(content: &Content) -> Nx {
         let store = ctlstore::restore(content);
         Nx::over(connect(store.clone()).await, store)
+    }
+
+    /// Opens the Nexus over a controllable store (gate off) for the STEP part.
+    pub fn open_gated(content: &Content) -> (Nx, Arc<vcore::ctlstore::Ctl>) {
+        let inner = ctlstore::restore(content);
+        let (cs, ctl) = vcore::ctlstore::CtlStore::over(inner.clone());
+        let nexus = block_on(connect(cs));
+        (Nx::over(nexus, inner), ctl)
     }
 
     pub fn over(nexus: CognitiveNexus, store: Arc<InMemory>) -> Nx {
